@@ -161,6 +161,7 @@ def step (unit : PStr) (st : St) (ev : Ev) : PStr × St :=
 inductive LevelArg where
   | none
   | true
+  | false
   | int (n : Int)
 deriving Repr, DecidableEq
 
@@ -168,6 +169,7 @@ deriving Repr, DecidableEq
 def levelOf : LevelArg → Option Int
   | .none => Option.none
   | .true => some 0
+  | .false => some 0
   | .int n => some n
 
 /-- the list `pieces` built by the loop -/
@@ -254,5 +256,189 @@ end
 
 /-- all whitespace code points removed -/
 def dropWs (s : PStr) : PStr := s.filter (fun c => !isSpace c)
+
+/-! ## The layer above the pieces: receivers, encodings, the bytes flavour, the XML declaration
+
+Here the pieces are no longer inputs but computed as the code computes them, from what the tag / string objects carry:
+`Tag._format_tag` (element.py:2560-2620; the attribute string — `formatter.attributes`, `attribute_value`,
+`quoted_attribute_value`, charset substitution — stays opaque, given per `eventual_encoding`), `NavigableString.output_ready` /
+`PreformattedString.output_ready` (:1347-1356, :1450-1466; `PREFIX + body + SUFFIX`, the substituted body opaque), and the
+entry points `Tag.decode`/`decode_contents`/`encode`/`encode_contents`/`prettify` (element.py) and `BeautifulSoup.decode`
+(bs4/__init__.py:1080-1146: XML declaration, deprecated bool `indent_level`). The codec step `str.encode(encoding,
+"xmlcharrefreplace")` is not modelled: a bytes result is represented by the encoding and the text handed to the codec. -/
+
+/-- what a tag object carries as far as rendering its own two pieces is concerned -/
+structure TagInfo where
+  id : Nat
+  /-- `none`: a `Tag`; `some x`: a `BeautifulSoup` object with `is_xml = x` (its `decode` is overridden) -/
+  soupXml : Option Bool
+  hidden : Bool
+  /-- `self.prefix` ("" for `None`: both falsy) -/
+  nsPrefix : PStr
+  name : PStr
+  /-- `attribute_string` of `_format_tag(opening=True)` for every `eventual_encoding` not listed in `attrBy` -/
+  attrDefault : PStr
+  /-- … and for the listed ones (`none` = `eventual_encoding=None`): differs only through `AttributeValueWithCharsetSubstitution` -/
+  attrBy : List (Option PStr × PStr)
+  preserveWs : Option (List PStr)
+  canBeEmpty : Bool
+deriving Repr
+
+/-- a tree as the objects are: strings with their class' PREFIX/SUFFIX and the body `output_ready` puts between them -/
+inductive RNode where
+  | str (pre suf body : PStr)
+  | tag (info : TagInfo) (kids : List RNode)
+deriving Repr
+
+/-- what reaches `_format_tag` from the call: `eventual_encoding` and `formatter.void_element_close_prefix or ""` -/
+structure RCfg where
+  enc : Option PStr
+  vcp : PStr
+deriving Repr
+
+def attrString (i : TagInfo) (enc : Option PStr) : PStr :=
+  match i.attrBy.lookup enc with
+  | some s => s
+  | none => i.attrDefault
+
+/-- `Tag._format_tag(eventual_encoding, formatter, opening)` (element.py:2560-2620) -/
+def formatTag (c : RCfg) (i : TagInfo) (isEmptyElement opening : Bool) : PStr :=
+  if i.hidden then []
+  else
+    let closingSlash : PStr := if !opening then [47] else []
+    let pfx : PStr := if i.nsPrefix ≠ [] then i.nsPrefix ++ [58] else []
+    let attributeString : PStr := if opening then attrString i c.enc else []
+    let voidElementClosingSlash : PStr := if isEmptyElement then c.vcp else []
+    [60] ++ closingSlash ++ pfx ++ i.name ++ attributeString ++ voidElementClosingSlash ++ [62]
+
+/-- `output_ready`: `self.PREFIX + output + self.SUFFIX` (both implementations) -/
+def outputReady (pre suf body : PStr) : PStr := pre ++ body ++ suf
+
+mutual
+/-- the pieces of every node under one call configuration -/
+def resolve (c : RCfg) : RNode → Node
+  | .str p s b => .str (outputReady p s b)
+  | .tag i ks =>
+    let isEmpty := ks.isEmpty && i.canBeEmpty
+    mkTag i.id (formatTag c i isEmpty true) (formatTag c i isEmpty false) i.preserveWs i.name i.canBeEmpty (resolveL c ks)
+def resolveL (c : RCfg) : List RNode → List Node
+  | [] => []
+  | k :: ks => resolve c k :: resolveL c ks
+end
+
+def RNode.hidden : RNode → Bool
+  | .tag i _ => i.hidden
+  | .str _ _ _ => false
+
+def RNode.soupXml : RNode → Option Bool
+  | .tag i _ => i.soupXml
+  | .str _ _ _ => none
+
+/-- `Tag.decode(indent_level, eventual_encoding, formatter)` (`contentsOnly = false`) and
+    `Tag.decode_contents(indent_level, eventual_encoding, formatter)` (`contentsOnly = true`, element.py:2650-2676);
+    `unit` = `formatter.indent`, `vcp` = `formatter.void_element_close_prefix or ""` -/
+def tagDecode (unit vcp : PStr) (lvl : LevelArg) (enc : Option PStr) (contentsOnly : Bool) (r : RNode) : PStr :=
+  decodeImpl unit (levelOf lvl) (receiverStream r.hidden contentsOnly (resolve ⟨enc, vcp⟩ r))
+
+/-- the first lines of `BeautifulSoup.decode` (bs4/__init__.py:1104-1117): the XML declaration of an `is_xml` soup -/
+def xmlDecl (isXml : Bool) (enc : Option PStr) : PStr :=
+  if isXml then
+    let declared : Option PStr := match enc with
+      | some e => if BS.Gen.Pretty.pythonSpecificEncodings.contains e then none else some e
+      | none => none
+    let encodingPart : PStr := match declared with
+      | some e => ofS " encoding=\"" ++ e ++ ofS "\""
+      | none => []
+    ofS "<?xml version=\"1.0\"" ++ encodingPart ++ ofS "?>\n"
+  else []
+
+/-- bs4/__init__.py:1127-1132: a bool first argument keeps its pre-4.13 meaning (`True` → 0, `False` → None, with a
+    DeprecationWarning) -/
+def soupLevel : LevelArg → LevelArg
+  | .true => .int 0
+  | .false => .none
+  | l => l
+
+/-- `BeautifulSoup.decode(indent_level, eventual_encoding, formatter, iterator)`; `decode_contents` on a soup reaches it
+    with `iterator=self.descendants` (`contentsOnly`) -/
+def soupDecode (unit vcp : PStr) (isXml : Bool) (lvl : LevelArg) (enc : Option PStr) (contentsOnly : Bool) (r : RNode) : PStr :=
+  xmlDecl isXml enc ++ tagDecode unit vcp (soupLevel lvl) enc contentsOnly r
+
+/-- `self.decode(...)` by method resolution: the override for a `BeautifulSoup` receiver -/
+def recvDecode (unit vcp : PStr) (lvl : LevelArg) (enc : Option PStr) (contentsOnly : Bool) (r : RNode) : PStr :=
+  match r.soupXml with
+  | some x => soupDecode unit vcp x lvl enc contentsOnly r
+  | none => tagDecode unit vcp lvl enc contentsOnly r
+
+/-- a result: text, or the bytes `text.encode(enc, "xmlcharrefreplace")` (codec not modelled) -/
+inductive Out where
+  | str (s : PStr)
+  | bytes (enc : PStr) (text : PStr)
+deriving Repr, DecidableEq
+
+/-- `Tag.encode(encoding, indent_level, formatter)` (element.py:2334-2363): `self.decode(indent_level, encoding, formatter)`,
+    then the codec -/
+def encodeImpl (unit vcp : PStr) (encoding : PStr) (lvl : LevelArg) (r : RNode) : Out :=
+  .bytes encoding (recvDecode unit vcp lvl (some encoding) false r)
+
+/-- `Tag.encode_contents(indent_level, encoding, formatter)` (element.py:2678-2696) -/
+def encodeContentsImpl (unit vcp : PStr) (lvl : LevelArg) (encoding : PStr) (r : RNode) : Out :=
+  .bytes encoding (recvDecode unit vcp lvl (some encoding) true r)
+
+/-- `Tag.prettify(encoding, formatter)` (element.py:2627-2648): without an encoding `self.decode(indent_level=0,
+    formatter=formatter)` — `eventual_encoding` at the default of the `decode` that is reached — else `self.encode(encoding=
+    encoding, indent_level=0, formatter=formatter)` -/
+def prettifyRaw (unit vcp : PStr) (encoding : Option PStr) (r : RNode) : Out :=
+  match encoding with
+  | none =>
+    let dflt := match r.soupXml with
+      | some _ => BS.Gen.Pretty.soupDecodeDefaultEnc
+      | none => BS.Gen.Pretty.tagDecodeDefaultEnc
+    .str (recvDecode unit vcp (.int 0) dflt false r)
+  | some e => encodeImpl unit vcp e (.int 0) r
+
+/-- the recursive specification of `recvDecode`: the declaration line (XML-flavoured soup only), then `decodeSpec` on the
+    resolved pieces -/
+def recvSpec (unit vcp : PStr) (lvl : LevelArg) (enc : Option PStr) (contentsOnly : Bool) (r : RNode) : PStr :=
+  match r.soupXml with
+  | some x => xmlDecl x enc ++ decodeSpec unit (levelOf (soupLevel lvl)) r.hidden contentsOnly (resolve ⟨enc, vcp⟩ r)
+  | none => decodeSpec unit (levelOf lvl) r.hidden contentsOnly (resolve ⟨enc, vcp⟩ r)
+
+mutual
+/-- identities of the tags of a raw tree -/
+def rids : RNode → List Nat
+  | .tag i ks => i.id :: ridsL ks
+  | .str _ _ _ => []
+def ridsL : List RNode → List Nat
+  | [] => []
+  | k :: ks => rids k ++ ridsL ks
+end
+
+mutual
+/-- no tag shares its identity with one of its descendants -/
+def rdistinct : RNode → Bool
+  | .tag i ks => !(ridsL ks).contains i.id && rdistinctL ks
+  | .str _ _ _ => true
+def rdistinctL : List RNode → Bool
+  | [] => true
+  | k :: ks => rdistinct k && rdistinctL ks
+end
+
+mutual
+/-- no whitespace-preserving element met outside literal mode is `hidden` -/
+def rPreVisible : RNode → Bool
+  | .tag i ks =>
+    if ks.isEmpty && i.canBeEmpty then true
+    else if !shouldPrettyPrint i.preserveWs i.name then !i.hidden
+    else rPreVisibleL ks
+  | .str _ _ _ => true
+def rPreVisibleL : List RNode → Bool
+  | [] => true
+  | k :: ks => rPreVisible k && rPreVisibleL ks
+end
+
+def RNode.kids : RNode → List RNode
+  | .tag _ ks => ks
+  | .str _ _ _ => []
 
 end BS.Pretty
